@@ -35,7 +35,8 @@ partial def expand (j : Json) : Json :=
   | x => x
 
 /-- `{"op":"verdict","schema":…,"doc":…,"cap":n}` →
-`{"add":b,"commit":b,"conforms":b,"benign":b,"unknown_top":b,"arr_in_arr":b,"size":n}` -/
+`{"add":b,"commit":b,"conforms":b,"benign":b,"unknown_top":b,"arr_in_arr":b,"leaves_typed":b,
+"size":n}` -/
 def handle (req : Json) : Except String Json := do
   let op ← getStr req "op"
   match op with
@@ -43,9 +44,9 @@ def handle (req : Json) : Except String Json := do
     let s := schemaOf (← req.getObjVal? "schema")
     let d := toJ (expand (← req.getObjVal? "doc"))
     let cap := getNatD req "cap" (32 * 1024 * 1024)
-    let (ut, aa) := match d with
-      | .obj kv => (unknownTop s kv, arrInArrTop s kv)
-      | _ => (false, false)
+    let (ut, aa, lt) := match d with
+      | .obj kv => (unknownTop s kv, arrInArrTop s kv, leavesTypedTop s kv)
+      | _ => (false, false, true)
     return Json.mkObj [
       ("add", validateAdd blank s d),
       ("commit", collectOk blank size cap s d),
@@ -53,6 +54,7 @@ def handle (req : Json) : Except String Json := do
       ("benign", benign size cap s d),
       ("unknown_top", ut),
       ("arr_in_arr", aa),
+      ("leaves_typed", lt),
       ("size", size (project s d))]
   | _ => throw s!"C15: unknown op {op}"
 
